@@ -5,13 +5,14 @@
     name lists, flags, `initial`, scoped `events` (event → source key → list of Transition objects, in
     dict insertion order), the constructor-time machine-level lists and options, the models.
   * `initMarkup` is the non-markup branch of `MarkupMachine.__init__` (copies the machine-level lists
-    and options — `after_state_change` is read from `before_state_change`, as the code does);
+    and options);
     `refresh` is `markup`/`get_markup_config` → `_convert_states_and_transitions` + `_convert_models`;
     `exportMk = refresh ∘ initMarkup`.
   * `importMk` is `MarkupMachine(markup=…)` / `HierarchicalMarkupMachine(markup=…)`:
     `Machine.__init__(model=None, **markup)` → `add_states` (dict states, recursively with their local
-    `transitions`), `initial`, `add_transitions` (`add_transition(**t_def)`: a definition without `dest`
-    or `source` is a `TypeError` → `none`), auto transitions as `add_states/_init_state` leave them,
+    `transitions`), `initial`, `add_transitions` (`add_transition(**t_def)`: `dest` defaults to `None`
+    on `MarkupMachine.add_transition`; a definition without `source` is a `TypeError` → `none`), auto
+    transitions as `add_states/_init_state` leave them,
     then `_add_markup_model` per model.
   * `MM` is the dirty flag (`_needs_update`) around the cached dict.
 
@@ -163,7 +164,7 @@ structure WL where
   deriving DecidableEq, Repr, Inhabited
 
 /-- the whitelists of the pinned tree -/
-def WL.pinned : WL := ⟨[0, 1, 2, 5, 6, 7, 8, 3], [0, 1, 2, 3, 4, 5]⟩
+def WL.pinned : WL := ⟨[0, 1, 2, 5, 6, 7, 8, 3, 4], [0, 1, 2, 3, 4, 5]⟩
 /-- whitelists that name every modelled attribute -/
 def WL.full : WL := ⟨[0, 1, 2, 3, 4], [0, 1, 2, 3, 4]⟩
 
@@ -204,11 +205,15 @@ def hasState (scope root : List St) (p : Path) : Bool :=
   | [n] => (names scope).contains n
   | _ => walk scope p || walk root p
 
-/-- `_is_auto_transition` in a scope -/
+/-- `_is_auto_transition` in a scope: one source key per state of the scope, and the name is
+`to_<state>` or `to_<model_attribute>_<state>` for a state `get_state` finds.  (The code also tries the
+plain `to_` prefix on a `to_<model_attribute>_…` name, i.e. looks for a state called
+`<model_attribute>_…`; the harness never names a state after the model attribute.) -/
 def isAuto (scope root : List St) (e : Event) : Bool :=
   match e.name with
   | .to p => e.trans.length == scope.length && hasState scope root p
-  | _ => false
+  | .toAttr p => e.trans.length == scope.length && hasState scope root p
+  | .plain _ => false
 
 def exportEvent (wl : WL) (e : Event) : List MTrans :=
   e.trans.flatMap fun kv => kv.2.map (exportTrans wl e.name)
@@ -218,19 +223,20 @@ def exportEvents (wl : WL) (scope root : List St) (evs : List Event) : List MTra
   (evs.filter fun e => !isAuto scope root e).flatMap (exportEvent wl)
 
 mutual
-/-- `_convert(state, state_attributes)` + name + (for states with substates) the scoped
-`_convert_states_and_transitions` -/
-def exportSt (wl : WL) (root : List St) : St → MState
+/-- `_convert(state, state_attributes)` + the explicit falsy `ignore_invalid_triggers` when the machine's
+flag `mi` is truthy + name + (for states with substates) the scoped `_convert_states_and_transitions` -/
+def exportSt (wl : WL) (mi : Tri) (root : List St) : St → MState
   | .mk name onEnter onExit onFinal ignore final initial events children =>
     .mk name (keep wl.st 1 onEnter) (keep wl.st 0 onExit) (keep wl.st 4 onFinal)
-      (if wl.st.contains 2 && ignore.truthy then some .yes else none)
+      (if !ignore.truthy && mi.truthy then some ignore
+       else if wl.st.contains 2 && ignore.truthy then some .yes else none)
       (wl.st.contains 3 && final)
       (if children.isEmpty then none else initial)
       (if children.isEmpty then [] else exportEvents wl children root events)
-      (exportSts wl root children)
-def exportSts (wl : WL) (root : List St) : List St → List MState
+      (exportSts wl mi root children)
+def exportSts (wl : WL) (mi : Tri) (root : List St) : List St → List MState
   | [] => []
-  | s :: r => exportSt wl root s :: exportSts wl root r
+  | s :: r => exportSt wl mi root s :: exportSts wl mi root r
 end
 
 /-- non-markup branch of `MarkupMachine.__init__`: machine-level lists and options, once -/
@@ -238,7 +244,7 @@ def initMarkup (c : Cfg) : Markup :=
   { name := none, initial := none
     prepareEvent := c.prepareEvent
     beforeSC := c.beforeSC
-    afterSC := c.beforeSC          -- markup.py: `_markup['after_state_change']` is built from `self.before_state_change`
+    afterSC := c.afterSC
     finalize := c.finalize
     onException := c.onException
     onFinal := c.onFinal
@@ -251,7 +257,7 @@ def convert (wl : WL) (c : Cfg) (m : Markup) : Markup :=
     initial := match c.initial with | some i => some i | none => m.initial
     name := match c.name with | some n => some n | none => m.name
     transitions := exportEvents wl c.states c.states c.events
-    states := exportSts wl c.states c.states }
+    states := exportSts wl c.opts.ignore c.states c.states }
 
 /-- the `markup` property on a machine whose cache is stale -/
 def refresh (wl : WL) (c : Cfg) (m : Markup) : Markup :=
@@ -261,14 +267,15 @@ def exportMk (wl : WL) (c : Cfg) : Markup := refresh wl c (initMarkup c)
 
 /-! ### import -/
 
-/-- `add_transition(**t_def)` argument binding; `conditions` then `unless` (`Transition.__init__`) -/
+/-- `add_transition(**t_def)` argument binding (`dest` defaults to `None`: internal transition);
+`conditions` then `unless` (`Transition.__init__`) -/
 def importTrans (m : MTrans) : Option (EvName × Trans) :=
-  match m.source, m.dest with
-  | some s, some d =>
-    some (m.trigger, { source := s, dest := some d, prepare := m.prepare
+  match m.source with
+  | some s =>
+    some (m.trigger, { source := s, dest := m.dest, prepare := m.prepare
                        conds := m.conditions.map (fun c => (c, true)) ++ m.unl.map (fun c => (c, false))
                        before := m.before, after := m.after })
-  | _, _ => none
+  | none => none
 
 def importTransL : List MTrans → Option (List (EvName × Trans))
   | [] => some []
